@@ -1,6 +1,8 @@
 SPECIFICATION Spec
 CONSTANTS
-    Table = {0, 1, 20, 21, 22, 43, 700, 1427, 1447, 1448}
+    Tables = {{0, 1, 20, 21, 22, 43, 700, 1427, 1447, 1448}}
+    OvershootPadsToMultiple = TRUE
+    Sticky = FALSE
     WriteSizes = {0, 1, 1406, 1407, 1426, 1427, 1428, 2854, 2855, 4281}
     ZeroSampleGuarded = TRUE
     Modes = {0, 1, 2}
